@@ -151,6 +151,11 @@ func run(r *simkit.Run) {
 		r.Meta["min_relay_fee"] = fmt.Sprint(cfg.Pool.MinRelayTxFee)
 		r.Meta["max_orphans"] = fmt.Sprint(cfg.Pool.MaxOrphanTxs)
 	}
+	if prof == "crash" && c.Bool(300, "disk-crash") {
+		// configuration (B): real ffldb + goleveldb on the simulated disk
+		runDiskCrash(r, w, cfg)
+		return
+	}
 	r.Meta["utxo_cache"] = fmt.Sprint(cfg.UtxoCacheMax)
 	r.Meta["maturity"] = fmt.Sprint(net.Maturity)
 	var store Store = newMemStore(0)
